@@ -26,7 +26,7 @@ def main(pid, kind):
         szs = sizes(kind, run.tier)
         jobs = [{'id': '%s_%d_%d' % (kind, D, B), 'kind': gk, 'a': D, 'b': B, 'abstract': ['poseidon.Poseidon2']} for D, B in szs]
         # unsummarised twins for translator validation / replay at small sizes
-        small = [(D, B) for D, B in szs if D * B <= 8][:3]
+        small = [(D, B) for D, B in szs if D * B <= 8 and B <= (1 << D)][:3]      # a valid batch must fit the tree
         jobs += [{'id': '%s_real_%d_%d' % (kind, D, B), 'kind': gk, 'a': D, 'b': B, 'nowrap': True} for D, B in small]
         t = time.time()
         paths = run_dump(jobs)
@@ -44,7 +44,10 @@ def main(pid, kind):
                 ok, why = merkle.oracle(kind, D, B, ins)
                 w_real, failed = eval_r1cs(dreal, ins)
                 g = dumper_solve({'id': 'x', 'kind': gk, 'a': D, 'b': B}, ins)
-                if not g['solved'] or failed or not ok:
+                if not ok:
+                    run.inconclusive.append('translator validation: the reference generator produced an invalid %s batch at D=%d B=%d (%s)' % (kind, D, B, why))
+                    continue
+                if not g['solved'] or failed:
                     run.violation('honest valid %s batch D=%d B=%d: oracle=%s gnark_solved=%s evaluator_failed=%s' % (kind, D, B, why, g['solved'], failed[:3]),
                                   {'kind': kind, 'D': D, 'B': B, 'inputs': [str(x) for x in ins], 'gnark': g.get('error')}, key='valid-batch-rejected')
                     continue
@@ -63,7 +66,7 @@ def main(pid, kind):
         if [str(poseidon_ref.hash(p)) for p in pts] != got:
             run.inconclusive.append('reference Poseidon disagrees with iden3 on sample points')
         # ---- the deciding queries
-        tasks = [{'kind': kind, 'D': D, 'B': B, 'path': paths['%s_%d_%d' % (kind, D, B)], 'timeout': 600 if run.thorough else 120} for D, B in szs]
+        tasks = [{'kind': kind, 'D': D, 'B': B, 'path': paths['%s_%d_%d' % (kind, D, B)], 'timeout': 2400 if run.thorough else 180} for D, B in szs]
         tasks.sort(key=lambda t: -t['D'] * t['B'])
         for task, res in pool_map(merkle.run_task, tasks):
             if isinstance(res, Exception):
